@@ -498,9 +498,15 @@ class ExceptionMonitor(Monitor):
 
     def on_call(self, w, rec) -> None:
         e = rec.exc
+        if rec.inb is not None:
+            w.probe(f"cell:{rec.hk}:{rec.pre.step}:{rec.inb_kind}:{'ok' if e is None else e.cls}")
         if e is None:
             return
         if not e.is_lib:
+            if w.fs_fault is not None and e.cls in ("FileNotFoundError", "PermissionError"):
+                # the user's filestore was made to fail in this population (not in C10's quantifier)
+                w.probe("C10.filestore_exception_passed_on")
+                return
             w.violate("C10.internal_error", f"{e.cls}@{e.func} {rec.ent}.{rec.hk} op={rec.op} in={rec.inb_kind} step={rec.pre.step}", e.msg)
             return
         if e.cls == "UnretrievedPdusToBeSent" and rec.qlen_entry == 0:
